@@ -34,10 +34,14 @@ def evaluate(ctx, recs, outs, stats):
     for r in recs:
         n = len(r.steps)
         terms.append(cl.report_term(r, [("K", i) for i in range(n)]))
+        terms.append(cl.refs_term(r))
     vals = common.coq_eval("c05", cl.IMPORTS, terms, batch=1)
     pred = {}
-    for r, v in zip(recs, vals):
+    for r, v, rv in zip(recs, vals[0::2], vals[1::2]):
         rep = cl.parse_coq(v)
+        if rv != "true":
+            common.corr_break(ctx, "Corr.CheckCommit.kill_refs_ok (model: at every kill position the staged inventory on disk lists only existing content files)",
+                              {"input": {"scenario": r.scn.name}})
         pred[id(r)] = rep
         inp = {"scenario": r.scn.name, "command": r.scn.final("<w>"), "set": r.set}
         ctx.count(("rec", r.scn.name, r.set), nontrivial=True,
@@ -65,10 +69,18 @@ def evaluate(ctx, recs, outs, stats):
         ctx.count((o["scn"], tuple(o["hit"] or ()), o["cls"], o["set"], tuple(o["point"])), nontrivial=True,
                   sample={"input": case_input(o), "class": o["cls"], "ocflv": o["detail"]["ocflv"],
                           "rocfl_validate_exit": o["detail"]["rocfl_validate_rc"], "model": model})
+        if "recovery" in o:
+            rk = "recovery_retry_%s" % ("ok" if o["recovery"]["retry_rc"] == 0 else "refused")
+            stats[rk] = stats.get(rk, 0) + 1
         if o["msgs"]:
             ctx.violation("impl-violation", {"input": case_input(o),
-                                             "observed": {"main_object": o["cls"], "detail": o["detail"], "staged_left": o["staged_left"]},
+                                             "observed": {"main_object": o["cls"], "detail": o["detail"], "staged_left": o["staged_left"],
+                                                          "recovery": o.get("recovery"), "staged_inventory_lists_missing_files": o.get("dangling")},
                                              "expected": "; ".join(o["msgs"])})
+            continue
+        if o.get("dangling"):
+            common.corr_break(ctx, "Corr.CheckCommit.staged_refs_ok (the staged inventory on disk after the kill lists head content files that exist nowhere; the model's run never does)",
+                              {"input": case_input(o), "observed": {"missing": o["dangling"][:6]}})
             continue
         if model is None:
             stats["not_aligned"] = stats.get("not_aligned", 0) + 1
@@ -97,7 +109,11 @@ def run(ctx):
         raise common.BuildError("Corr/CheckCommit.v does not build:\n" + log[-3000:])
     env = st.rocfl_env(os.path.join(ctx.tmp, "home"))
     workers = max(4, min(14, common.NPROC - 2))
-    recs = cl.prepare(ctx, env, cl.scenario_list(ctx), workers=workers)
+    scns = cl.scenario_list(ctx) + [cl.Scn("manydup", "0004", False)] + ([] if ctx.quick() else [cl.Scn("manydup", "0002", True)])
+    recs = cl.prepare(ctx, env, scns, workers=workers)
+    for r in recs:
+        # recovery (remove the stale lock, commit again) after every kill: quick tier in the scenarios whose commit deletes staged files
+        r.recover = (not ctx.quick()) or r.scn.kind in ("dedup", "manydup")
     wscn = [cl.Scn(*x) for x in cl.WRITE_GRANULARITY]
     for s in wscn:
         s.name += "-w"
@@ -109,10 +125,13 @@ def run(ctx):
     evaluate(ctx, recs + wrecs, outs, stats)
     ctx.coverage["scenarios"] = [r.scn.name for r in recs + wrecs]
     ctx.coverage["kill_points"] = len(jobs)
+    ctx.coverage["recovery_runs"] = sum(1 for _, o in outs if "recovery" in o)
+    ctx.coverage["identical_new_files_in_manydup"] = cl.NCOPIES
     ctx.coverage["traces_validated_against_impl"] = len(outs) + len(recs) + len(wrecs)
     ctx.coverage["distribution"] = stats
     ctx.assumptions += [
         "kills are enumerated before the mutating calls (and inside files): a kill before a non-mutating call (read, stat, getdents) leaves exactly the tree of a kill before the next mutating call, so reads add no kill position",
+        "recovery after a kill = remove the stale lock file and run commit again (quick: after every kill point of the dedup and manydup scenarios, thorough: everywhere): a successful retry must give a valid object from which rocfl cat returns the ingested bytes of every logical path, a refused retry must leave every ingested content in the staged object or in the object; which of %d identical new files dedup_head keeps is random per process, so a defect that depends on that choice is found with probability about 1 - prod(1 - k/%d) over the kill points (k files already deleted)" % (cl.NCOPIES, cl.NCOPIES),
         "process-kill model of the property: calls already made are durable and ordered (no power loss, no reordering by the file system)",
         "a file written by several write calls is modelled in two steps (truncate, data): every interrupted file is one token [CPartial], distinct from all complete contents",
         "the validator of clause (iii) is [obj_validb]: root entries known to the inventory (E001), sidecar digest (E060), parseable inventory, declaration required by the inventory (E003/E007/E038), a directory for every version (E010), head inventory copy (E064); the real verdict is the agreement of ocflv.py and rocfl validate",
